@@ -1532,6 +1532,26 @@ func (x *gen) round3() {
 			}
 		}
 	}
+	// reject: every command length 0..13 (incl. every real command) x empty / non-empty reason, alone and followed by
+	// 32 more bytes (which belong to the message only for the commands block and tx)
+	{
+		var cmds []string
+		cmds = append(cmds, commandList()...)
+		for n := 0; n <= 13; n++ {
+			cmds = append(cmds, string(bytes.Repeat([]byte{'a'}, n)))
+		}
+		for _, c := range cmds {
+			for _, reason := range []string{"", "r"} {
+				m := &wire.MsgReject{Cmd: c, Code: wire.RejectInvalid, Reason: reason, Hash: x.hash()}
+				var w bytes.Buffer
+				if err := m.BtcEncode(&w, 70016, wire.BaseEncoding); err != nil {
+					continue
+				}
+				x.dec("reject-shapes", "reject", 70016, "b", w.Bytes(), true)
+				x.dec("reject-shapes", "reject", 70016, "b", append(append([]byte{}, w.Bytes()...), r.Bytes(32)...), true)
+			}
+		}
+	}
 	// heterogeneous items: a block whose transactions differ in every attribute
 	for i := 0; i < x.g.N(10, 100); i++ {
 		b := &wire.MsgBlock{Header: x.header()}
